@@ -10,7 +10,8 @@ values, declared node outputs, placeholders for undeclared inputs); a node input
 (`up` scopes outwards, index into that table).  `Value` objects that are never registered (outputs
 named "", graph outputs nobody produces, sharding placeholders) are carried inline.
 
-Defects D27/D28/D29/D120 are modelled as FIXED (see /verif/proposed_fixes/D27..D29.diff, D120.diff).
+Defects D27/D28/D29/D120/D320 are modelled as FIXED (see /verif/proposed_fixes/D27..D29.diff, D120.diff;
+D320 = /repo commit f0d2984).
 Python exceptions are `Except.error <kind>`; the correspondence only compares ok/raised.
 Only core Lean is imported.
 -/
@@ -1148,6 +1149,31 @@ def serExperimental (f : IRFunction) : List ValueInfoP :=
     expEmit f.domain f.name (tbl.getD i (IRValue.blank ""))
   go f.graph.inputs ++ go (optNats (f.graph.nodes.flatMap IRNode.outputs))
 
+/-- the names the main graph's value_info entries are looked up with when the model is loaded
+(serde.py:1593-1602, D320 fixed): the names of the inputs and outputs of the top-level nodes and of
+the initializers -/
+def reservedNames : IRGraph → List String
+  | .mk tbl _ inits nodes _ _ _ _ _ =>
+    let scopes : Scopes := [tableNames tbl]
+    ((nodes.flatMap fun n =>
+        (n.inputs.filterMap fun r => r.map (refName scopes)) ++
+        (n.outputs.filterMap fun j => j.map fun i => refName scopes ⟨0, i⟩)).filter (· ≠ ""))
+      ++ ((inits.map fun i => (tbl.getD i (IRValue.blank "")).name).filter (· ≠ ""))
+
+/-- `can_be_parsed_back` with `reserved_names` (serde.py:1782-1793, D320 fixed): an experimental entry
+whose formatted name is also the name of a value of the main graph is not written (it would be
+attached to that value too when the model is loaded) -/
+def expEmitR (reserved : List String) (d n : String) (v : IRValue) : List ValueInfoP :=
+  if reserved.contains (experimentalName d n v.name) then [] else expEmit d n v
+
+/-- `_serialize_experimental_value_info_for_function_ir9_into(graph, func, reserved_names=...)` -/
+def serExperimentalR (reserved : List String) (f : IRFunction) : List ValueInfoP :=
+  if !f.overload.isEmpty then [] else
+  let tbl := f.graph.table
+  let go := fun (is : List Nat) => is.flatMap fun i =>
+    expEmitR reserved f.domain f.name (tbl.getD i (IRValue.blank ""))
+  go f.graph.inputs ++ go (optNats (f.graph.nodes.flatMap IRNode.outputs))
+
 def serFunctions (ver : Int) : List IRFunction → Except Err (List FunctionP)
   | [] => .ok []
   | f :: fs => do
@@ -1158,11 +1184,12 @@ def serFunctions (ver : Int) : List IRFunction → Except Err (List FunctionP)
 def GraphP.addValueInfo : GraphP → List ValueInfoP → GraphP
   | .mk n d ns i ins outs vi q m, extra => .mk n d ns i ins outs (vi ++ extra) q m
 
-/-- `serialize_model_into` serde.py:1542-1581 -/
+/-- `serialize_model_into` serde.py:1570-1615 (D320 fixed: reserved names) -/
 def serModel (m : IRModel) : Except Err ModelP := do
   let g ← serGraph [] (some m.irVersion) m.graph
   let fs ← serFunctions m.irVersion m.functions
-  let g := if m.irVersion ≥ 10 then g else GraphP.addValueInfo g (m.functions.flatMap serExperimental)
+  let g := if m.irVersion ≥ 10 then g
+    else GraphP.addValueInfo g (m.functions.flatMap (serExperimentalR (reservedNames m.graph)))
   .ok { irVersion := m.irVersion, producerName := m.producerName, producerVersion := m.producerVersion,
         domain := m.domain, modelVersion := m.modelVersion, doc := m.doc,
         opsetImport := m.graph.opsets, metadata := sortEntries m.mprops, graph := g, functions := fs,
